@@ -47,6 +47,12 @@ func c14Worker(c *core.Collector, x *Ctx) {
 		}
 	}
 	age := func(b *builder, ms int64) { b.ops = append(b.ops, hookOp{AgeMs: ms}) }
+	// feedCut: the frame arrives in two reads (TCP does not respect frame boundaries): "the next inbound data" after an idle
+	// spell is then a read that completes no frame
+	feedCut := func(b *builder, f []byte, at int) {
+		b.frames = append(b.frames, f)
+		b.ops = append(b.ops, hookOp{Feed: core.Hex(f[:at])}, hookOp{Feed: core.Hex(f[at:])})
+	}
 	run := func(gen string, b *builder) {
 		sc := &hookScenario{Kind: "hook", Gen: gen, Frames: hexAll(b.frames), Ops: b.ops}
 		hookEval(c, sc, cats, true)
@@ -146,7 +152,11 @@ func c14Worker(c *core.Collector, x *Ctx) {
 					feed(b, hookFrame(false, id, uint16(2000+k), true, uint16(j.N), uint16(k), bodies[k-1]))
 				}
 				age(b, 5600)
-				feed(b, hb(4))
+				if ji%2 == 0 {
+					feedCut(b, hb(4), 1+r.Intn(12)) // the re-request is owed at the first of the two reads
+				} else {
+					feed(b, hb(4))
+				}
 				age(b, 4400)
 				feed(b, hb(5)) // 4.4 s after the second re-request: nothing
 				for _, k := range missing[half:] {
